@@ -636,6 +636,35 @@ def memo_key_rule(repo: Repo, rep: Report, rid: str) -> None:
     rep.floor(rid, "type factories", n, 6)
 
 
+def layout_fold_rule(repo: Repo, rep: Report, rid: str, max_len: int = 2, part: str = "both") -> None:
+    rep.rule(rid, f"layout calculators, bounded-exhaustive: StructureMetaType / UnionMetaType._calculate_size_and_offsets interpreted on every sequence of up to "
+                  f"{max_len} field kinds (17 kinds: scalars, odd-sized and dynamic types, enum, bit-fields of several storage types, explicit offsets) plus "
+                  "longer fixed sequences, packed and aligned, give the reference size, alignment and per-field offsets (C rules; explicit offsets lead; "
+                  "nothing behind a dynamic field has a static offset; a straddling bit-field is refused)")
+    from ..folds import fold_struct_layout
+
+    cache = repo.__dict__.setdefault("_layout_folds", {})
+    if max_len not in cache:
+        cache[max_len] = fold_struct_layout(repo, max_len)
+    fold = cache[max_len]
+    sfi = repo.func("types/structure.py", "StructureMetaType._calculate_size_and_offsets")
+    ufi = repo.func("types/structure.py", "UnionMetaType._calculate_size_and_offsets")
+    if fold is None:
+        rep.ok(rid, f"{sfi.key}:fold", "not foldable with the evaluator's whitelist: the structural rules decide alone", sfi.loc(), nontrivial=False)
+        return
+    rep.info["layout_fold_cases"] = fold["cases"]
+    if part in ("both", "struct"):
+        bad = fold["struct_bad"]
+        rep.check(not bad, rid, f"{sfi.key}:fold", f"{fold['cases']} (field sequence, mode) cases agree with the reference layout",
+                  f"structure {list(bad[0][0]) if bad else ''} ({bad[0][1] if bad else ''}): calculator gives (size, alignment, offsets) = {bad[0][2] if bad else ''}, "
+                  f"reference {bad[0][3] if bad else ''}", sfi.loc())
+    if part in ("both", "union"):
+        bad = fold["union_bad"]
+        rep.check(not bad, rid, f"{ufi.key}:fold", "union size / alignment agree with the reference on every case",
+                  f"union {list(bad[0][0]) if bad else ''} ({bad[0][1] if bad else ''}): calculator gives (size, alignment) = {bad[0][2] if bad else ''}, reference "
+                  f"{bad[0][3] if bad else ''}", ufi.loc())
+
+
 def run(repo: Repo, rep: Report, tier: str) -> None:
     type_table_rule(repo, rep, "C04.R1")
     provenance_rule(repo, rep, "C04.R2")
@@ -653,3 +682,9 @@ def run(repo: Repo, rep: Report, tier: str) -> None:
 
     flush_rule(repo, rep, "C04.R9")
     size_rule(repo, rep, "C04.R10")
+    from .memo import memo_rule
+
+    memo_rule(repo, rep, "C04.R11")
+    layout_fold_rule(repo, rep, "C04.R12", 3 if tier == "thorough" else 2)
+
+
